@@ -195,6 +195,16 @@ var props = []*prop{
 		Thorough:    budget{Shards: 14, Checks: 100000, TimeoutS: 3000},
 	},
 	{
+		ID: "C10", Pkg: "c10", Level: "exploration",
+		Technique:   "metamorphic property-based testing (rapid): repetitions, serialisation variants and the two continue-on-errors modes of one document must agree as stated",
+		LevelText:   "Valid, singly and multiply broken generated specifications (several independent rule violations in different definitions / operations), structurally edited documents and fixtures; each loaded afresh and validated repeatedly, in both modes, from JSON, key-reversed JSON and YAML; equal message sets across repetitions and renderings, stop-early errors contained in continue-on-errors errors, validity <=> no error, returned warnings = attached warnings.",
+		LevelNote:   "No reference model: the oracle is the relation between runs. Go randomises map iteration per range statement, so in-process repetitions exercise order dependence; separate shard processes add different hash seeds. Trusted: yaml.v3 / encoding/json renderings, message normalisation (only circular-ancestry messages are normalised).",
+		Assumptions: trusted,
+		Builds:      plain,
+		Quick:       budget{Shards: 14, Checks: 16, TimeoutS: 900, ShrinkS: 30},
+		Thorough:    budget{Shards: 14, Checks: 300, TimeoutS: 6000, ShrinkS: 60},
+	},
+	{
 		ID: "C11", Pkg: "c11", Level: "fault_enumeration",
 		Technique:   "property-based testing (rapid) with fault injection: for every generated workload the caller-supplied format checker is made to panic at its k-th invocation for EVERY k the workload reaches; differential against outcomes computed alone from reset pools",
 		LevelText:   "Fault points are enumerated exhaustively within each generated workload (k = 1..N checker invocations, N <= 64, plus the fault-free history containing the documented unresolvable-$ref panic), workloads are sampled. After each recovered panic the rest of the workload and a probe sequence over all (schema, instance) pairs must return what they return alone from fresh pools; half of the shards use the validatedebug pools (double redeem panics), and a drawn scribble mode overwrites every redeemed object.",
